@@ -236,18 +236,15 @@ class SrcGen:
         if self.has("bounds") and r.random() < 0.55:
             a = r.randint(max(lo, -20), min(hi, 20))
             b = r.randint(a, min(hi, a + r.choice([0, 1, 3, 10, 100])))
-            c = r.random()
-            if c < 0.3:
+            # every combination of an inclusive / exclusive / absent lower and upper bound
+            lower, upper = r.choice([(x, y) for x in ("ge", "gt", None) for y in ("le", "lt", None) if x or y])
+            if lower == "ge":
                 t["ge"] = a
-            elif c < 0.5:
-                t["le"] = b
-            elif c < 0.8:
-                t["ge"], t["le"] = a, b
-            elif c < 0.9:
+            elif lower == "gt":
                 t["gt"] = a - 1 if a - 1 >= lo else a
-                t["le"] = b + 1 if b + 1 <= hi else b
-            else:
-                t["ge"] = a
+            if upper == "le":
+                t["le"] = b + 1 if (lower == "gt" and b + 1 <= hi) else b
+            elif upper == "lt":
                 t["lt"] = b + 2 if b + 2 <= hi else b + 1
         return t
 
@@ -262,17 +259,11 @@ class SrcGen:
         if self.has("bounds") and r.random() < 0.5:
             a = Decimal(r.randint(-40, 40)) / Decimal(r.choice([1, 2, 4, 10]))
             b = a + Decimal(r.randint(0, 40)) / Decimal(r.choice([1, 2, 4]))
-            c = r.random()
-            if c < 0.3:
-                t["ge"] = a
-            elif c < 0.5:
-                t["le"] = b
-            elif c < 0.75:
-                t["ge"], t["le"] = a, b
-            elif c < 0.9:
-                t["gt"] = a
-            else:
-                t["gt"], t["lt"] = a, b + 1
+            lower, upper = r.choice([(x, y) for x in ("ge", "gt", None) for y in ("le", "lt", None) if x or y])
+            if lower:
+                t[lower] = a
+            if upper:
+                t[upper] = b + 1 if upper == "lt" else b
         return t
 
     def t_string(self):
